@@ -1585,6 +1585,16 @@ theorem calm_setLayer {f : Font} (hc : Calm f) (L : String) (l' : Layer) (h : l'
 theorem calm_of_get? {f : Font} (hc : Calm f) {L : String} {l : Layer}
     (hget : AL.get? f.layers L = some l) : l.calm := hc (L, l) (AL.mem_of_get? hget)
 
+theorem Undisturbed.of_get {f : Font} {L : String} {l : Layer} (h : Undisturbed f L)
+    (hget : AL.get? f.layers L = some l) : l.held = 0 ∧ l.disabled = 0 := by
+  unfold Undisturbed at h; rw [hget] at h; exact h
+
+theorem undisturbed_of_calm {f : Font} (hc : Calm f) (L : String) : Undisturbed f L := by
+  unfold Undisturbed
+  cases hget : AL.get? f.layers L with
+  | none => trivial
+  | some l => exact ⟨(calm_of_get? hc hget).1, (calm_of_get? hc hget).2.1⟩
+
 theorem calm_of_sublayers {f f' : Font} (hc : Calm f)
     (hm : ∀ kl ∈ f'.layers, ∃ k', (k', kl.2) ∈ f.layers) : Calm f' := by
   intro kl hkl
